@@ -168,6 +168,8 @@ def emit_k(inst):
         loops.append(dw * nc)  # tail loops over the components of a row
     if inst["mode"] in ("bounded", "monotone"):
         loops.append(nsrc)
+    if inst["mode"] == "spec_taps":
+        loops.append(max(len(r) for r in inst["ref_w40"]))
     if inst["mode"] == "uniform":
         loops.append(ndst)
     unwind = max(loops) + 2
@@ -245,6 +247,15 @@ def emit_k(inst):
         body.append("run_%s::<%s>(CpuExtensions::%s, &b, %d, %d, &mut db, %d, %d, %d, &pass);" % (
             fn, inst["pixel"], inst["cpu"], sw, sh, dw, dh, inst["offset"]))
         body.append("check_monotone(&da, &db);")
+    elif mode == "spec_taps":
+        body += src_decl()
+        body.append("let mut dst: [%s; %d] = kani::any();" % (ct, ndst))
+        body.append("let pass = %s;" % pass_rs)
+        body.append("check_taps(&pass, &%s, %s);" % (
+            "[" + ", ".join(str(s_) for s_ in inst["ref_starts"]) + "]",
+            "&[" + ", ".join("&[" + ", ".join("%di64" % v for v in row) + "]" for row in inst["ref_w40"]) + "]"))
+        body.append("check_%s::<%s>(CpuExtensions::%s, &src, %d, %d, &mut dst, %d, %d, %d, &pass);" % (
+            fn, inst["pixel"], inst["cpu"], sw, sh, dw, dh, inst["offset"]))
     elif mode == "ref":
         body += src_decl()
         body.append("let mut dst: [%s; %d] = kani::any();" % (ct, ndst))
@@ -455,7 +466,7 @@ def gen_c01(tier, seed):
         r = real[inst["_gid"]]
         prec = r["p%d" % norm]
         ref = ideal.ideal_weights(*g)
-        starts, weights, budget = [], [], []
+        starts, weights, budget, w40s = [], [], [], []
         bad = False
         for x, (w, fuzzy) in enumerate(ref):
             if fuzzy or not w:
@@ -466,6 +477,7 @@ def gen_c01(tier, seed):
             rs, rn = inst["bounds"][x]
             lo, hi = min(lo, rs), max(hi, rs + rn - 1)
             row = [int(round(w.get(i, 0.0) * (1 << 24))) for i in range(lo, hi + 1)]
+            w40s.append([int(round(w.get(i, 0.0) * (1 << 40))) for i in range(lo, hi + 1)])
             n = len(row)
             allowed = n * (2.0 ** -(prec + 1) + 2.0 ** -40)
             b = int((0.5 + mx * allowed) * (1 << 24)) + mx * n // 2 + 4
@@ -480,11 +492,23 @@ def gen_c01(tier, seed):
             skipped.append((inst["name"], "a sample centre sits on a kernel discontinuity (ideal weight undefined)"))
             continue
         inst["ref_starts"], inst["ref_weights"], inst["ref_budget"] = starts, weights, budget
+        inst["ref_w40"] = w40s
         if not (inst["pixel"] == "U8" and inst["_gid"] == "bil_8_3"):
-            # full-symbolic contents cost ~7 min per U8 instance (two dense multiplier sets);
-            # elsewhere 3 components at symbolic positions over a fixed background
-            inst["hot"] = 4
+            # The content-quantified closeness bound costs ~7 min per U8 instance and does not finish
+            # for the others (a numeric inequality between two different linear forms is the worst
+            # case for SAT).  Elsewhere it is decided in two steps: kernel == fixed-point spec of its own
+            # coefficients (structural, for all contents) and per-tap closeness of the real
+            # coefficients to the ideal weights (constants); the bound follows by the triangle
+            # inequality (kern.rs::check_taps).
+            inst["mode"] = "spec_taps"
+            # dense real coefficients: full-symbolic rows cost 17+ min (U8 Lanczos 5->7); use 4 (2 for
+            # 16-bit) symbolic components at generator-chosen positions over a fixed background
+            inst["hot"] = 2 if inst["pixel"].startswith("U16") else 4
             inst["hot_fixed"] = True
+            if inst["pixel"].startswith("U16"):
+                # dense 32-bit coefficients x 16-bit data: > 25 min even with 4 symbolic components
+                inst["tier"] = "thorough"
+                inst["t"] = 5400
         inst["t"] = 2400
         # the reference window may be wider than the real one: make the source wide enough
         need = max(s + len(wt) for s, wt in zip(starts, weights))
@@ -493,6 +517,8 @@ def gen_c01(tier, seed):
         else:
             inst["sh"] = max(inst["sh"], need)
         out.append(inst)
+    if tier != "thorough":
+        out = [i for i in out if i["tier"] == "quick"]
     write_gen("C01", out)
     return {"instances": len(out), "geometries": {k: list(v) for k, v in G.items()},
             "quantisation_error_in_units_of_2^-p_per_window": diag, "skipped": skipped}
